@@ -329,6 +329,11 @@ def worker_main(prop_id, tier, seed, shard, nshards, out_path):
         json.dump(res, f, default=str)
     os.replace(out_path + ".tmp", out_path)
     common.cleanup_scratch()
+    # the result is on disk: leave without joining whatever threads the code under test may have started and never stopped
+    # (a helper thread pool owned by a store would keep a normal interpreter exit waiting for ever)
+    sys.stdout.flush()
+    sys.stderr.flush()
+    os._exit(0)
 
 
 # -------------------------------------------------------------------------------------------
